@@ -715,10 +715,6 @@ def explore_async(ctx, h, label, nhist, nops, ncuts):
                 ln, seed = r.choice([r.randrange(1, 40), r.randrange(1, 300), r.randrange(300, 2500)]), r.randrange(1, 250)
                 body.append("put %d %s %d %d%s" % (d, k.hex(), ln, seed, fl)); st[d][k] = (ln, seed)
             states.add(state_digest(st))
-        if hi == 0:
-            # the store outgrows its first free-space bitmap (4096 bytes cover 4 MB): the bitmap is doubled and moved, the log
-            # holds the records of that move (the history is then only scanned for record kinds, growth re-bases the log)
-            body = ["put 1 %s 320000 %d" % (b"big%02d" % j, 7 + j) for j in range(14)] + body
         ops += body + ["snap %s %s" % (pre, walp), "close"]
         rc, out, err = C.run_lines([h], ops, timeout=300)
         if rc == 0 and len(out) == len(ops) and os.path.exists(walp):
